@@ -216,3 +216,206 @@ fn c13_smh_f32_m3() {
 fn c13_smh_f64_m1() {
     c13_reinit::<f64, 1>();
 }
+
+// =====================================================================================
+// C04 / C05 / C03 — one SuperMinHash::sketch call is the position-wise MIN of the old sketch and
+// the item's full (unpruned) contribution, and keeps the representation invariant
+// =====================================================================================
+//
+//   Inv:  every hsketch[i] is either the initial value LARGE (= u32::MAX) or lies in [0, m];
+//         b[j] == #{ i : min(floor(hsketch[i]), m-1) == j }   (histogram of integer parts, clamped)
+//         a_upper == max{ j : b[j] > 0 }
+//         q[i] < item_rank for all i   (lazy-reset marker never equals the rank of the next item)
+use rand_xoshiro::Xoshiro256PlusPlus as Xo;
+
+pub(crate) trait StepF: AnyF {
+    fn any_in_sketch_range(m: usize) -> Self;
+    fn bits_eq(a: Self, b: Self) -> bool;
+}
+impl StepF for f64 {
+    fn any_in_sketch_range(m: usize) -> f64 {
+        let x: f64 = kani::any();
+        kani::assume((x >= 0.0 && x <= m as f64) || x == u32::MAX as f64);
+        x
+    }
+    fn bits_eq(a: f64, b: f64) -> bool {
+        a.to_bits() == b.to_bits()
+    }
+}
+impl StepF for f32 {
+    fn any_in_sketch_range(m: usize) -> f32 {
+        let x: f32 = kani::any();
+        kani::assume((x >= 0.0 && x <= m as f32) || x == u32::MAX as f32);
+        x
+    }
+    fn bits_eq(a: f32, b: f32) -> bool {
+        a.to_bits() == b.to_bits()
+    }
+}
+
+fn bucket<F: StepF>(v: F, m: usize) -> usize {
+    cmp::min(v.to_usize().unwrap(), m - 1)
+}
+
+/// arbitrary state satisfying Inv (sketch values symbolic, histogram and upper bound derived)
+pub(crate) fn any_inv_state<F: StepF, const M: usize>() -> SuperMinHash<F, u64, NoHashHasher> {
+    let mut s = SuperMinHash::<F, u64, NoHashHasher>::new(M, BuildHasherDefault::<NoHashHasher>::default());
+    let rank: usize = kani::any();
+    kani::assume(rank < (1usize << 40));
+    s.item_rank = rank;
+    for i in 0..M {
+        s.hsketch[i] = F::any_in_sketch_range(M);
+        let qi: i64 = kani::any();
+        kani::assume(qi >= -1 && qi < rank as i64);
+        s.q[i] = qi;
+        s.p[i] = kani::any();
+        s.b[i] = 0;
+    }
+    for i in 0..M {
+        let bk = bucket(s.hsketch[i], M);
+        for j in 0..M {
+            if j == bk {
+                s.b[j] += 1;
+            }
+        }
+    }
+    let mut au = 0;
+    for j in 0..M {
+        if s.b[j] > 0 {
+            au = j;
+        }
+    }
+    s.a_upper = au;
+    s
+}
+
+pub(crate) fn inv_smh<F: StepF, const M: usize>(s: &SuperMinHash<F, u64, NoHashHasher>) -> bool {
+    let mut ok = s.hsketch.len() == M && s.q.len() == M && s.p.len() == M && s.b.len() == M;
+    let mut hist = [0i64; M];
+    for i in 0..M {
+        let v = s.hsketch[i];
+        ok = ok && ((v >= F::zero() && v <= F::from(M).unwrap()) || v == F::from(u32::MAX).unwrap());
+        let bk = bucket(v, M);
+        for j in 0..M {
+            if j == bk {
+                hist[j] += 1;
+            }
+        }
+        ok = ok && s.q[i] < s.item_rank as i64;
+    }
+    let mut au = 0;
+    for j in 0..M {
+        ok = ok && s.b[j] == hist[j];
+        if hist[j] > 0 {
+            au = j;
+        }
+    }
+    ok && s.a_upper == au
+}
+
+/// the item's full contribution: value j + r_j on position p_j of the item's Fisher-Yates permutation,
+/// computed from the same per-item stream with no pruning
+fn contribution<F: StepF, const M: usize>(item: u64) -> [F; M] {
+    let mut rng = Xo::seed_from_u64(nohash(item));
+    let unit = Uniform::<F>::new(num::zero::<F>(), num::one::<F>()).unwrap();
+    let mut p = [0usize; M];
+    for i in 0..M {
+        p[i] = i;
+    }
+    let mut c = [F::zero(); M];
+    for j in 0..M {
+        let r: F = unit.sample(&mut rng);
+        let k = Uniform::<usize>::new(j, M).unwrap().sample(&mut rng);
+        // swap p[j], p[k] with the subscript case-split
+        let pj = p[j];
+        let mut pk = pj;
+        for k0 in 0..M {
+            if k0 == k {
+                pk = p[k0];
+                p[k0] = pj;
+            }
+        }
+        p[j] = pk;
+        let v = r + F::from(j).unwrap();
+        for i0 in 0..M {
+            if i0 == pk {
+                c[i0] = v;
+            }
+        }
+    }
+    c
+}
+
+fn c04_smh_step<F: StepF, const M: usize>() {
+    let mut s = any_inv_state::<F, M>();
+    let mut old = [F::zero(); M];
+    for i in 0..M {
+        old[i] = s.hsketch[i];
+    }
+    let rank0 = s.item_rank;
+    let item: u64 = kani::any();
+    let r = strip(s.sketch(&item));
+    assert!(r.is_some());
+    let c = contribution::<F, M>(item);
+    // join lemma: position-wise minimum
+    for i in 0..M {
+        let e = if c[i] < old[i] { c[i] } else { old[i] };
+        assert!(F::bits_eq(s.hsketch[i], e));
+    }
+    assert!(s.item_rank == rank0 + 1);
+    // the invariant is kept
+    assert!(inv_smh::<F, M>(&s));
+    kani::cover!(s.hsketch[0] < old[0] && (M < 2 || F::bits_eq(s.hsketch[M - 1], old[M - 1])), "witness: one position improved, another kept");
+    std::mem::forget(s);
+}
+
+/// C03, single-item clause: from the fresh state one item puts j + r_j on position p_j; the p_j are a
+/// permutation of 0..m and r_j is the j-th uniform draw (so fractional parts of distinct positions come
+/// from distinct generator outputs); every position is written.
+fn c03_single_item<F: StepF, const M: usize>() {
+    let mut s = SuperMinHash::<F, u64, NoHashHasher>::new(M, BuildHasherDefault::<NoHashHasher>::default());
+    let item: u64 = kani::any();
+    let r = strip(s.sketch(&item));
+    assert!(r.is_some());
+    let c = contribution::<F, M>(item);
+    let mut seen = [false; M];
+    for i in 0..M {
+        assert!(F::bits_eq(s.hsketch[i], c[i]));
+        // integer parts: a permutation of 0..m (the value j + r may round up to j + 1: then the
+        // integer part is read as j + 1, which the histogram invariant above is about)
+        let ip = s.hsketch[i].to_usize().unwrap();
+        assert!(ip <= M);
+        for j in 0..M {
+            if j == ip {
+                assert!(!seen[j]);
+                seen[j] = true;
+            }
+        }
+        assert!(s.hsketch[i] < F::from(M).unwrap() || ip == M);
+    }
+    assert!(inv_smh::<F, M>(&s));
+    kani::cover!(s.hsketch[0] >= F::one(), "witness: non-identity permutation");
+    std::mem::forget(s);
+}
+
+macro_rules! smh_proof {
+    ($name:ident, $unw:expr, $body:expr) => {
+        #[kani::proof]
+        #[kani::stub(std::backtrace::Backtrace::capture, crate::verif_common::no_backtrace)]
+        #[kani::unwind($unw)]
+        fn $name() {
+            $body
+        }
+    };
+}
+smh_proof!(c04_smh_step_f64_m2, 5, c04_smh_step::<f64, 2>());
+smh_proof!(c04_smh_step_f64_m3, 6, c04_smh_step::<f64, 3>());
+smh_proof!(c04_smh_step_f64_m4, 7, c04_smh_step::<f64, 4>());
+smh_proof!(c04_smh_step_f32_m2, 5, c04_smh_step::<f32, 2>());
+smh_proof!(c04_smh_step_f32_m3, 6, c04_smh_step::<f32, 3>());
+smh_proof!(c04_smh_step_f32_m4, 7, c04_smh_step::<f32, 4>());
+smh_proof!(c03_single_f64_m2, 5, c03_single_item::<f64, 2>());
+smh_proof!(c03_single_f64_m3, 6, c03_single_item::<f64, 3>());
+smh_proof!(c03_single_f64_m4, 7, c03_single_item::<f64, 4>());
+smh_proof!(c03_single_f32_m3, 6, c03_single_item::<f32, 3>());
+smh_proof!(c03_single_f32_m4, 7, c03_single_item::<f32, 4>());
